@@ -19,6 +19,10 @@ COQ_CASE_TYPE = "case_t"
 SHARD = 150
 ALLOWED_AXIOMS = []
 TRUSTED = [
+    "ops histories (accessor order, setter calls, rewritten table files) are judged by the Python oracle only (oracle_ops: per "
+    "step and per wrapper of the stack bulk == per-sample, labels inside the range announced at that moment, random class / "
+    "pseudo label / overwrite equal in both accessors and shape to a FRESH wrapper built in memory from the current settings "
+    "on a pristine dataset); the Coq model covers the stack up to the first ops step",
     "label-source-change histories are judged by the Python oracle only (oracle_source_change: bulk == per-sample for the "
     "wrapper under test, every layer of the wrapped stack and every sibling; SNAPSHOT_KINDS keep the construction-time "
     "labels in both accessors, LIVE_KINDS follow the current wrapped labels in both, class -> group maps and slots of "
@@ -81,7 +85,15 @@ RULE = ("one wrapper kind per case (12 kinds incl. 4 pseudo-label table kinds), 
         "{root, inner}) end with a LABEL-SOURCE CHANGE after everything was built -- the root dataset's label storage "
         "edited in place (whole list or one corrected annotation) or the inner KDRandomClassWrapper re-configured through "
         "its setters (seed / mode='randperm') -- after which the wrapper under test, every layer below it and every "
-        "sibling are read again through both accessors")
+        "sibling are read again through both accessors; ACCESSOR ORDER is generated: 30% of the cases ask the bulk accessor "
+        "first of the new wrapper, and 30% (70% of the file-backed ones; directed block directed_ops) end with an ops history "
+        "of 1-4 steps on the finished stack, each = optionally a public setter call (KDRandomClassWrapper.seed / .mode / "
+        ".num_classes of the wrapper under test, an under-layer or the inner wrapper; KDPseudoLabelWrapper.threshold / .seed) "
+        "or a change of the table file behind uri= (pseudo-label tables of all kinds incl. dict(label, confidence) and "
+        "overwrite tables are supplied through torch.save'd files in 35% of those cases, str or Path; the file is "
+        "torch.save'd over with another table of the same shape, overwritten byte-wise through r+b, truncated and zero-filled, "
+        "or deleted), then every wrapper of the stack is read in the step's order (bulk / per-sample / shape permutations, "
+        "interleaved)")
 
 # wrappers that may SHOW the -1 marker (pass it through or create it)
 UNLABELED_OK = {"swap", "overwrite", "allgather", "pseudo", "semi", "smoothing"}
@@ -222,6 +234,15 @@ def gen_under(rng, n, C):
         return {"w": "allgather", "W": rng.randint(1, n)}
     if k == "semi":
         return {"w": "semi", "pct": rng.choice([0.3, 0.5, 0.7, 1.0]), "seed": gen_seed(rng)}
+    if k in ("overwrite", "pseudo"):
+        spec = _gen_under_table(rng, n, C, k)
+        if rng.random() < 0.25:
+            spec["via"] = gen_via(rng, spec)
+        return spec
+    return _gen_under_rest(rng, n, C, k)
+
+
+def _gen_under_table(rng, n, C, k):
     if k == "overwrite":
         return {"w": "overwrite", "classes": gen_labels(rng, n, C, True), "as_tensor": rng.random() < 0.5}
     if k == "pseudo":
@@ -232,6 +253,10 @@ def gen_under(rng, n, C):
             return {"w": "pseudo", "mode": "soft", "table": table, "tau": None, "seed": None}
         return {"w": "pseudo", "mode": "thr", "table": table, "tau": None, "seed": None,
                 "threshold": gen_threshold(rng, table, C)}
+    raise ValueError(k)
+
+
+def _gen_under_rest(rng, n, C, k):
     if k == "random_class":
         return {"w": "random_class", "mode": rng.choice(["random", "randperm"]), "num_classes": None, "seed": gen_seed(rng)}
     divs = [d for d in range(1, C + 1) if C % d == 0]
@@ -256,7 +281,7 @@ def gen_sibling(rng, case, allow_same=True):
     same arguments) or any label wrapper that keeps length and class count; -> (spec, keeps the class count)"""
     k = case["w"]
     if allow_same and rng.random() < 0.45 and (k in SEEDED_KINDS or (k == "pseudo" and case.get("mode") == "topk")):
-        spec = {kk: v for kk, v in case.items() if kk not in ("labels", "n", "C", "inner", "under", "hist", "post", "prov", "src")}
+        spec = {kk: v for kk, v in case.items() if kk not in ("labels", "n", "C", "inner", "under", "hist", "post", "prov", "src", "ops", "first")}
         spec["seed"] = other_seed(rng, case.get("seed"))
         return spec, False
     return gen_under(rng, case["n"], case["C"]), True
@@ -332,6 +357,159 @@ def gen_src(rng, case):
     return {"how": "root_edit", "labels": new}
 
 
+def _ops_targets(case):
+    specs = _specs(case)
+    setters = [j for j, sp in enumerate(specs) if sp is not None and (
+        (sp["w"] == "random_class" and sp.get("mode") != "gatherbug") or sp["w"] == "pseudo")]
+    files = [j for j, sp in enumerate(specs) if sp is not None and sp.get("via")]
+    return specs, setters, files
+
+
+def _other_table(rng, case, sp):
+    """another table of the same shape and dtype as the one the wrapper was built from"""
+    n, C = case["n"], case["C"]
+    old = sp["classes"] if sp["w"] == "overwrite" else sp["table"]
+    for _ in range(20):
+        if sp["w"] == "overwrite" or sp.get("mode") == "hard":
+            new = gen_labels(rng, n, C, True)
+            if new == old:
+                new = [(y + 1) % C if y >= 0 and C > 1 else (-1 if y >= 0 else 0) for y in old]
+        else:
+            new = gen_table(rng, n, C, probs=sp.get("mode") == "topk" and sp.get("tau") is None)
+            if rng.random() < 0.5:      # every row's winner moves
+                new = [r[1:] + r[:1] for r in old]
+        if new != old:
+            return new
+    return new
+
+
+def gen_ops(rng, case, steps=None, force=None):
+    """history on the finished objects: accessor order per step (bulk first / per-sample first / shape first /
+    interleaved) for every wrapper of the stack, with calls of the documented public setters (KDRandomClassWrapper.mode /
+    .num_classes / .seed properties, KDPseudoLabelWrapper.threshold / .seed attributes) and rewrites of the table file
+    behind `uri=` between the reads"""
+    specs, setters, files = _ops_targets(case)
+    cur = [None if sp is None else dict(sp) for sp in specs]
+    _src_settings(case, cur)
+    ops = []
+    for _ in range(steps or rng.choice([1, 2, 2, 3, 4])):
+        st = {"order": rng.choice(ORDERS + ["bis", "bsi", "sbi", "mix"])}
+        r = rng.random()
+        what = force or ("set" if r < 0.55 else "file" if r < 0.85 else "read")
+        if what == "file" and not files:
+            what = "set"
+        if what == "set" and setters:
+            j = rng.choice(setters)
+            sp = cur[j]
+            if sp["w"] == "random_class":
+                attrs = ["seed", "seed", "mode"] + (["num_classes", "num_classes"] if j == 0 else [])
+                a = rng.choice(attrs)
+                if a == "seed":
+                    v = other_seed(rng, sp["seed"])
+                elif a == "mode":
+                    v = "randperm" if sp["mode"] == "random" else "random"
+                else:
+                    have = sp["num_classes"] if sp["num_classes"] is not None else case["C"]
+                    v = rng.choice([x for x in (1, 2, 3, max(1, have - 1), max(1, have // 2), have + 3, rng.randint(1, 12))
+                                    if x != have])
+                sp[a] = v
+            else:
+                two_d = sp.get("mode") in ("soft", "thr")
+                a = rng.choice(["threshold", "threshold", "seed"]) if two_d else "seed"
+                if a == "seed":
+                    v = rng.choice([0, 1, rng.randint(0, 9999)])
+                    if v == sp.get("seed"):
+                        v += 1
+                    sp["seed"] = v
+                else:
+                    v = rng.choice([None, gen_threshold(rng, sp["table"], case["C"]), gen_threshold(rng, sp["table"], case["C"])])
+                    if v == sp.get("threshold"):
+                        v = None if v is not None else 0.5
+                    sp["threshold"] = v
+                    sp["mode"] = "soft" if v is None else "thr"
+            st.update(target=j, set=[a, v])
+        elif what == "file" and files:
+            j = rng.choice(files)
+            how = rng.choice(["overwrite", "overwrite", "rplus", "delete", "truncate"])
+            st.update(target=j, file=how)
+            if how in ("overwrite", "rplus"):
+                st["table"] = _other_table(rng, case, specs[j])
+        ops.append(st)
+    return ops
+
+
+def gen_via(rng, spec):
+    if spec["w"] == "pseudo" and spec.get("mode") == "hard":
+        return rng.choice(["file", "file_str", "file_dict"])
+    return rng.choice(["file", "file", "file_str"])
+
+
+def directed_ops(rng):
+    """(a) every setter of a KDRandomClassWrapper under test x bulk-first / shape-first / interleaved orders; (b) every
+    wrapper kind over an inner KDRandomClassWrapper whose seed / mode is set, bulk accessor asked first; (c) pseudo-label
+    (all table kinds) and overwrite tables given through uri= files that are rewritten / truncated / deleted after
+    construction; (d) threshold / seed of a pseudo-label wrapper reassigned"""
+    out = []
+
+    def base(kind, ok=lambda c: True):
+        for _ in range(60):
+            c = _gen_case(rng, kind=kind)
+            if (c["C"] > 1 and c["n"] > 1 and not (kind == "class_groups" and c["C"] % c["cpg"]) and ok(c)):
+                for key in ("hist", "post", "src", "ops", "first"):
+                    c.pop(key, None)
+                return c
+        return None
+
+    for attr in ("seed", "mode", "num_classes"):
+        for order in ("bis", "sbi", "mix", "bsi"):
+            c = base("random_class", lambda c: c["mode"] != "gatherbug")
+            if c is None:
+                continue
+            c.pop("under", None)
+            for _ in range(30):
+                ops = gen_ops(rng, c, steps=rng.choice([1, 2]), force="set")
+                if ops[0]["set"][0] == attr:
+                    break
+            ops[0]["order"] = order
+            c["ops"] = ops
+            out.append(c)
+    for kind in KINDS:
+        for order in ("bis", "sbi", "mix"):
+            c = base(kind)
+            if c is None:
+                continue
+            if rng.random() < 0.7:
+                c.pop("under", None)
+            c["inner"] = gen_seed(rng)
+            j = len(_specs(c)) - 2
+            v = rng.choice([["seed", other_seed(rng, c["inner"])], ["mode", "randperm"]])
+            c["ops"] = [{"order": order, "target": j, "set": v}]
+            if rng.random() < 0.5:
+                c["ops"].append({"order": rng.choice(ORDERS)})
+            out.append(c)
+    for mode in ("hard", "hard", "soft", "thr", "topk", "overwrite"):
+        for how in ("overwrite", "rplus", "delete", "truncate", "overwrite"):
+            c = base("overwrite") if mode == "overwrite" else base(
+                "pseudo", lambda c: c["mode"] == mode and not (mode == "topk" and c["seed"] is None))
+            if c is None:
+                continue
+            c.pop("under", None)
+            c["via"] = gen_via(rng, c)
+            st = {"order": rng.choice(ORDERS), "target": 0, "file": how}
+            if how in ("overwrite", "rplus"):
+                st["table"] = _other_table(rng, c, c)
+            c["ops"] = [st] + ([{"order": rng.choice(ORDERS)}] if rng.random() < 0.5 else [])
+            out.append(c)
+    for mode in ("soft", "thr", "hard", "topk"):
+        for _ in range(3):
+            c = base("pseudo", lambda c: c["mode"] == mode)
+            if c is None:
+                continue
+            c["ops"] = gen_ops(rng, c, steps=rng.choice([1, 2, 3]), force="set")
+            out.append(c)
+    return out
+
+
 BINARY_KINDS = {"swap", "overwrite", "allgather", "pseudo", "semi", "random_class"}
 
 
@@ -340,7 +518,7 @@ def to_binary(case, rng):
     not read the class count as a table size are defined there (class groups / superclass / one-hot index or encode with it
     and reject label 1); label smoothing has its own binary cases"""
     n = case["n"]
-    c = {k: v for k, v in case.items() if k not in ("under", "topk", "tau", "threshold", "table", "as2d", "ties", "hist", "post", "src")}
+    c = {k: v for k, v in case.items() if k not in ("under", "topk", "tau", "threshold", "table", "as2d", "ties", "hist", "post", "src", "ops")}
     c.update(C=1, inner=None, binary=True, labels=[rng.choice([0, 1, 1, -1]) for _ in range(n)])
     if c["w"] == "overwrite":
         c["classes"] = [rng.choice([0, 1, -1]) for _ in range(n)]
@@ -446,6 +624,12 @@ def _gen_case(rng, big=False, kind=None):
         if case["inner"] is None and kind in LIVE_KINDS and C > 1 and rng.random() < 0.4:
             case["inner"] = gen_seed(rng)
         case["src"] = gen_src(rng, case)
+    if kind in ("pseudo", "overwrite") and rng.random() < 0.35:
+        case["via"] = gen_via(rng, case)
+    if rng.random() < 0.3:
+        case["first"] = rng.choice(["bulk", "bulk", "mix"])
+    if rng.random() < (0.7 if case.get("via") else 0.3):
+        case["ops"] = gen_ops(rng, case)
     return case
 
 
@@ -509,6 +693,9 @@ def directed_histories(rng):
                 hist.append({"spec": gen_sibling(rng, case)[0], "on": 1, "read": rng.random() < 0.5})
             case["hist"] = hist
             case["post"] = [{"spec": gen_sibling(rng, case)[0], "on": -1, "read": True}] if rng.random() < 0.5 else []
+            case.pop("ops", None)
+            if rng.random() < 0.3:
+                case["ops"] = gen_ops(rng, case)
             out.append(case)
     return out
 
@@ -531,22 +718,25 @@ def directed_source_changes(rng):
                     case.pop("under", None)
                 case["inner"] = gen_seed(rng) if how == "inner" else None
                 case["src"] = gen_src(rng, case)
+                case.pop("ops", None)
+                if rng.random() < 0.3:
+                    case["ops"] = gen_ops(rng, case)
                 out.append(case)
     return out
 
 
 def gen_cases(rng, tier):
     if tier == "quick":
-        out = directed_cases(rng) + directed_histories(rng) + directed_source_changes(rng)
+        out = directed_cases(rng) + directed_histories(rng) + directed_source_changes(rng) + directed_ops(rng)
         out += [gen_case(rng, kind=k) for k in KINDS for _ in range(12)]
         out += [gen_case(rng) for _ in range(900)]
     else:
-        out = directed_cases(rng) + [c for _ in range(6) for c in directed_histories(rng) + directed_source_changes(rng)] + [gen_case(rng) for _ in range(10000)] + [gen_case(rng, big=True) for _ in range(4000)]
+        out = directed_cases(rng) + [c for _ in range(6) for c in directed_histories(rng) + directed_source_changes(rng) + directed_ops(rng)] + [gen_case(rng) for _ in range(10000)] + [gen_case(rng, big=True) for _ in range(4000)]
     return out
 
 
 def search_cases(rng, tier):
-    for c in directed_cases(rng) + directed_histories(rng) + directed_source_changes(rng):
+    for c in directed_cases(rng) + directed_histories(rng) + directed_source_changes(rng) + directed_ops(rng):
         yield c
     for _ in range(30000):
         yield gen_case(rng, big=rng.random() < 0.3)
@@ -565,6 +755,8 @@ def _drop(case, i):
             c[k] = case[k][:i] + case[k][i + 1:]
     if "labels" in c.get("src", {}):
         c["src"] = {**c["src"], "labels": c["src"]["labels"][:i] + c["src"]["labels"][i + 1:]}
+    if c.get("ops"):
+        c["ops"] = [dict(st, table=st["table"][:i] + st["table"][i + 1:]) if "table" in st else st for st in c["ops"]]
     if "W" in c and c["W"] > c["n"]:
         return None
     if c.get("as2d") and c["n"] == 1:
@@ -572,7 +764,41 @@ def _drop(case, i):
     return c
 
 
+def _ops_valid(case):
+    if not case.get("ops"):
+        return True
+    specs, setters, files = _ops_targets(case)
+    for st in case["ops"]:
+        j = st.get("target", 0)
+        if st.get("set") and (j not in setters or (st["set"][0] == "threshold" and specs[j].get("mode") not in ("soft", "thr"))):
+            return False
+        if st.get("file") and j not in files:
+            return False
+    return True
+
+
 def shrink(case):
+    for c in _shrink(case):
+        if _ops_valid(c):
+            yield c
+
+
+def _shrink(case):
+    if case.get("ops"):
+        yield {k: v for k, v in case.items() if k != "ops"}
+        if len(case["ops"]) > 1:
+            yield {**case, "ops": case["ops"][1:]}
+            yield {**case, "ops": case["ops"][:-1]}
+        for i, st in enumerate(case["ops"]):
+            if st["order"] not in ("bis", "ibs"):
+                for o in ("ibs", "bis"):
+                    yield {**case, "ops": [dict(x, order=o) if j == i else x for j, x in enumerate(case["ops"])]}
+    if case.get("first"):
+        yield {k: v for k, v in case.items() if k != "first"}
+    if case.get("via") and not any(st.get("file") and st.get("target", 0) == 0 for st in case.get("ops", [])):
+        yield {k: v for k, v in case.items() if k != "via"}
+    if case.get("src") and case.get("ops"):
+        yield {k: v for k, v in case.items() if k != "src"}
     if case.get("post"):
         yield {**case, "post": []}
     if case.get("hist"):
@@ -821,10 +1047,51 @@ def base_cls(prov="own_list"):
     return _BASE[prov]
 
 
+_TMP = {"dir": None, "n": 0, "paths": {}}
+
+
+def _file_payload(spec, t):
+    """what is torch.save'd for a table given through `uri=`: the tensor, or (hard pseudo labels only) the documented
+    dict(label=..., confidence=...)"""
+    import torch
+    if spec.get("via") == "file_dict":
+        return {"label": t, "confidence": torch.linspace(0.5, 1.0, len(t))}
+    return t
+
+
+def _table_file(spec, t, ext=".th"):
+    """torch.save the table into this run's scratch directory; the path is remembered per spec object so that a later
+    history step can rewrite / delete that very file"""
+    import os
+    import tempfile
+    import torch
+    if _TMP["dir"] is None:
+        _TMP["dir"] = tempfile.mkdtemp(prefix="c16_tables_")
+    _TMP["n"] += 1
+    path = os.path.join(_TMP["dir"], "table%d%s" % (_TMP["n"], ext))
+    torch.save(_file_payload(spec, t), path)
+    _TMP["paths"][id(spec)] = path
+    return path
+
+
+def _pseudo_uri(spec, t):
+    from pathlib import Path
+    path = _table_file(spec, t)
+    return path if spec["via"] == "file_str" else Path(path)
+
+
+def _tmp_cleanup():
+    import shutil
+    if _TMP["dir"] is not None:
+        shutil.rmtree(_TMP["dir"], ignore_errors=True)
+    _TMP.update(dir=None, n=0, paths={})
+
+
 def build(case, wrapped, args=None):
     """construct the wrapper described by `case` on `wrapped`; args (a list) receives every mutable constructor
     argument as (what, live object, content at construction time)"""
     import torch
+    from pathlib import Path
     k = case["w"]
 
     def arg(what, obj):
@@ -843,6 +1110,9 @@ def build(case, wrapped, args=None):
         return SwapLabelWrapper(wrapped, p=case["p"], seed=case["seed"])
     if k == "overwrite":
         from kappadata.wrappers.dataset_wrappers.overwrite_classes_wrapper import OverwriteClassesWrapper
+        if case.get("via"):
+            uri = _table_file(case, torch.tensor(case["classes"]), ".pth")
+            return OverwriteClassesWrapper(wrapped, uri=uri if case["via"] == "file_str" else Path(uri))
         cl = arg("OverwriteClassesWrapper(classes=...)",
                  torch.tensor(case["classes"]) if case["as_tensor"] else list(case["classes"]))
         return OverwriteClassesWrapper(wrapped, classes=cl)
@@ -855,10 +1125,16 @@ def build(case, wrapped, args=None):
             t = torch.tensor(case["table"])
             if case["as2d"]:
                 t = t.unsqueeze(1)
+            if case.get("via"):
+                return KDPseudoLabelWrapper(wrapped, uri=_pseudo_uri(case, t), seed=case["seed"])
             arg("KDPseudoLabelWrapper(pseudo_labels=...)", t)
             return KDPseudoLabelWrapper(wrapped, pseudo_labels=t, seed=case["seed"])
-        t = arg("KDPseudoLabelWrapper(pseudo_labels=...)", torch.tensor(case["table"], dtype=torch.float32))
+        t = torch.tensor(case["table"], dtype=torch.float32)
         tau = float("inf") if case["tau"] == "inf" else case["tau"]
+        if case.get("via"):
+            return KDPseudoLabelWrapper(wrapped, uri=_pseudo_uri(case, t), threshold=case.get("threshold"),
+                                        topk=case.get("topk"), tau=tau, seed=case["seed"])
+        arg("KDPseudoLabelWrapper(pseudo_labels=...)", t)
         return KDPseudoLabelWrapper(wrapped, pseudo_labels=t, threshold=case.get("threshold"), topk=case.get("topk"),
                                     tau=tau, seed=case["seed"])
     if k == "random_class":
@@ -1038,6 +1314,13 @@ def _history(steps, offset, sibs, wrapped, w, watch, obs, args):
 
 
 def run_once(case, history=True):
+    try:
+        return _run_once(case, history)
+    finally:
+        _tmp_cleanup()
+
+
+def _run_once(case, history=True):
     trace = []
     obs = {}
     with _Patched(trace):
@@ -1071,6 +1354,18 @@ def run_once(case, history=True):
         guard("the constructor", True)
         n = len(w)
         obs["len"] = n
+        if case.get("first") in ("bulk", "mix"):
+            # accessor order is a generated dimension: the bulk accessor is the FIRST thing asked of the new wrapper
+            # ("mix": after one per-sample read)
+            try:
+                if case["first"] == "mix" and n:
+                    w.getitem_class(n - 1)
+                obs["bulk0"] = [_plain(y) for y in _tolist(w.getall_class())]
+            except NotImplementedError:
+                obs["bulk0"] = "NotImplementedError"
+            except Exception as e:
+                obs["bulk0"] = "error " + type(e).__name__ + ": " + str(e)[:120]
+            guard("getall_class (first access)")
         try:
             sh = w.getshape_class()
             obs["shape"] = [int(s) for s in sh]
@@ -1126,7 +1421,175 @@ def run_once(case, history=True):
         obs["tops"] = watch.tops
         if case.get("src"):
             _source_change(case, wrapped, w, sibs, obs)
+        if case.get("ops") and history:
+            _run_ops(case, wrapped, w, obs)
     return obs
+
+
+# ---------------------------------------------------------------------------
+# accessor-order / setter / table-file histories on the finished objects
+# ---------------------------------------------------------------------------
+ORDERS = ["bis", "bsi", "sbi", "sib", "ibs", "isb", "mix"]
+ENC_KINDS = ("smoothing", "onehot")
+
+
+def _specs(case):
+    """the wrapper specs aligned with [wrapper under test] + _layers(wrapped): case, the stack top-down, the inner
+    KDRandomClassWrapper, None for the root dataset"""
+    out = [case] + list(reversed(case.get("under", [])))
+    if case.get("inner") is not None:
+        out.append({"w": "random_class", "mode": "random", "num_classes": None, "seed": case["inner"]})
+    return out + [None]
+
+
+def _src_settings(case, cur):
+    """the label-source-change step (before the ops) may already have re-configured the inner KDRandomClassWrapper"""
+    src = case.get("src") or {}
+    if src.get("how") == "inner_seed":
+        cur[-2]["seed"] = src["seed"]
+    elif src.get("how") == "inner_mode":
+        cur[-2]["mode"] = src["mode"]
+
+
+def _is_dynamic(spec):
+    return spec["w"] == "pseudo" and spec.get("mode") == "topk" and spec.get("seed") is None
+
+
+def _read(ds, order):
+    """read the three label accessors of one wrapper in the given order (b = bulk, i = every sample, s = class shape;
+    "mix" = one sample, bulk, shape, the remaining samples, bulk once more)"""
+    r = {}
+
+    def bulk(key="bulk"):
+        try:
+            r[key] = [_plain(y) for y in _tolist(ds.getall_class())]
+        except NotImplementedError:
+            r[key] = "NotImplementedError"
+        except Exception as e:  # noqa
+            r[key] = "error " + type(e).__name__ + ": " + str(e)[:120]
+
+    def items(idx):
+        try:
+            got = [_plain(ds.getitem_class(i)) for i in idx]
+            if isinstance(r.get("items", []), list):
+                r["items"] = r.get("items", []) + got
+        except Exception as e:  # noqa
+            r["items"] = "error " + type(e).__name__ + ": " + str(e)[:120]
+
+    def shape():
+        try:
+            r["shape"] = [int(v) for v in ds.getshape_class()]
+        except Exception as e:  # noqa
+            r["shape"] = "error " + type(e).__name__ + ": " + str(e)[:120]
+
+    n = len(ds)
+    if order == "mix":
+        items(range(min(1, n)))
+        bulk()
+        shape()
+        items(range(min(1, n), n))
+        bulk("bulk_again")
+    else:
+        for ch in order:
+            {"b": bulk, "i": lambda: items(range(n)), "s": shape}[ch]()
+    r.setdefault("items", [])
+    return r
+
+
+def _apply_setter(obj, spec, attr, value):
+    """assign a documented public attribute of a label wrapper and keep the spec of its CURRENT settings"""
+    setattr(obj, attr, value)
+    if spec["w"] == "pseudo" and attr == "threshold":
+        spec["threshold"] = value
+        spec["mode"] = "soft" if value is None else "thr"
+    else:
+        spec[attr] = value
+
+
+def _rewrite_file(path, spec, how, table):
+    """the file behind `uri=` changes AFTER the wrapper was built: another table torch.save'd to the same path (the
+    same inode is truncated and rewritten), the same bytes range overwritten through r+b, the file truncated (and
+    zero-filled back to its length) or deleted"""
+    import io
+    import os
+    import torch
+    if not os.path.exists(path) and how in ("delete", "truncate"):
+        return                      # already deleted by an earlier step
+    if not os.path.exists(path):
+        how = "overwrite"           # a new file appears under the old name
+    if how == "delete":
+        os.remove(path)
+        return
+    if how == "truncate":
+        size = os.path.getsize(path)
+        os.truncate(path, 0)
+        os.truncate(path, size)
+        return
+    if spec["w"] == "overwrite" or spec.get("mode") == "hard":
+        t = torch.tensor(table)
+        if spec.get("as2d"):
+            t = t.unsqueeze(1)
+    else:
+        t = torch.tensor(table, dtype=torch.float32)
+    payload = _file_payload(spec, t)
+    if how == "rplus":
+        buf = io.BytesIO()
+        torch.save(payload, buf)
+        data = buf.getvalue()
+        if len(data) == os.path.getsize(path):
+            with open(path, "r+b") as f:
+                f.write(data)
+            return
+    torch.save(payload, path)
+
+
+def _run_ops(case, wrapped, w, obs):
+    """history on the finished objects: each step optionally calls a public setter of one wrapper of the stack /
+    rewrites the file a table was loaded from, then EVERY wrapper of the stack is read, top-down, in the step's accessor
+    order; wrappers that are a function of their arguments and seed are compared with a FRESH wrapper built from the
+    current settings on a pristine dataset"""
+    objs = [w] + _layers(wrapped)
+    specs = _specs(case)
+    if len(objs) != len(specs):
+        obs["ops_error"] = "harness: %d objects, %d specs" % (len(objs), len(specs))
+        return
+    paths = [None if sp is None else _TMP["paths"].get(id(sp)) for sp in specs]
+    cur = [None if sp is None else {k: v for k, v in sp.items() if k not in ("under", "hist", "post", "src", "ops")}
+           for sp in specs]
+    _src_settings(case, cur)
+    out = []
+    for st in case["ops"]:
+        rec = {"layers": []}
+        out.append(rec)
+        d = st.get("target", 0)
+        try:
+            if (st.get("set") or st.get("file")) and cur[d] is None:
+                raise ValueError("harness: ops step targets the root dataset")
+            if st.get("set"):
+                _apply_setter(objs[d], cur[d], st["set"][0], st["set"][1])
+            elif st.get("file"):
+                if paths[d] is None:
+                    rec["skipped"] = "no file"
+                else:
+                    _rewrite_file(paths[d], cur[d], st["file"], st.get("table"))
+        except Exception as e:  # noqa
+            rec["error"] = type(e).__name__ + ": " + str(e)[:120]
+            continue
+        for j, (o, sp) in enumerate(zip(objs, cur)):
+            if sp is None:
+                continue
+            r = _read(o, st["order"])
+            r["kind"] = sp["w"]
+            r["dynamic"] = _is_dynamic(sp)
+            if sp["w"] in ("random_class", "pseudo", "overwrite") and not r["dynamic"]:
+                try:
+                    ref = build({k: v for k, v in sp.items() if k != "via"},
+                                base_cls("list")(case["labels"], case["C"]))
+                    r["fresh"] = _read(ref, "isb")
+                except Exception as e:  # noqa
+                    r["fresh"] = "error " + type(e).__name__ + ": " + str(e)[:120]
+            rec["layers"].append(r)
+    obs["ops"] = out
 
 
 def _source_change(case, wrapped, w, sibs, obs):
@@ -1285,6 +1748,14 @@ def oracle(case, obs):
     bad = oracle_source_change(case, obs)
     if bad:
         return bad + hist_desc
+    bad = oracle_ops(case, obs)
+    if bad:
+        return bad + hist_desc
+    if isinstance(obs.get("bulk0"), str) and obs["bulk0"] != "NotImplementedError":
+        return "getall_class as the first access to the new wrapper raised: " + obs["bulk0"]
+    if isinstance(obs.get("bulk0"), list) and isinstance(bulk, list) and obs["bulk0"] != bulk and not dynamic(case):
+        return (f"getall_class() asked FIRST (before any per-sample access) returned {obs['bulk0']}, after the per-sample "
+                f"pass it returns {bulk} (per-sample {items})")
     if obs["x_ok"] is not True:
         return f"data other than the label is not passed through unchanged: {obs['x_ok']}"
     if obs.get("shadowed"):
@@ -1443,6 +1914,68 @@ def oracle(case, obs):
             if not (0 <= items[i] < len(row)) or r32[items[i]] < kth:
                 return (f"sample {i}: sampled pseudo label {items[i]} is not among the top-{case['topk']} classes of "
                         f"row {r32}")
+    return None
+
+
+def oracle_ops(case, obs):
+    """after every step of the accessor-order / setter / table-file history, for every wrapper of the stack:
+    bulk == per-sample element-wise, observed labels inside the range the wrapper announces NOW (or -1 where the kind may
+    show it), and -- for wrappers whose labels are a function of their own arguments and seed (random class, pseudo
+    label, overwrite) -- both accessors and the class shape equal to a FRESH wrapper built from the current settings"""
+    if not case.get("ops") or "items" not in obs:
+        return None
+    if "ops_error" in obs:
+        return obs["ops_error"]
+    specs = _specs(case)
+    names = ["the wrapper under test"] + ["layer %d below it" % j for j in range(1, len(specs))]
+    done = []
+    for st, rec in zip(case["ops"], obs.get("ops", [])):
+        d = st.get("target", 0)
+        kind_d = specs[d]["w"] if specs[d] else "?"
+        if st.get("set"):
+            done.append(f"{kind_d} ({names[d]}).{st['set'][0]} = {st['set'][1]!r}")
+        elif st.get("file") and "skipped" not in rec:
+            done.append(f"the file behind uri= of {kind_d} ({names[d]}) "
+                        + {"delete": "deleted", "truncate": "truncated and zero-filled"}.get(
+                            st["file"], f"rewritten in place ({st['file']}) with the table {st.get('table')}"))
+        pre = ("after " + "; ".join(done) if done else "without any change") + f", accessors read in order {st['order']!r}: "
+        if "error" in rec:
+            return pre + "the step itself raised " + rec["error"]
+        below = None
+        for j, r in reversed(list(enumerate(rec["layers"]))):
+            who = f"{r['kind']} ({names[j]})"
+            items, bulk, shape = r.get("items"), r.get("bulk"), r.get("shape")
+            for nm, v in (("getitem_class", items), ("getall_class", bulk), ("getshape_class", shape)):
+                if isinstance(v, str) and v != "NotImplementedError":
+                    return pre + f"{who}: {nm} raised {v}"
+            if r["kind"] in ENC_KINDS:
+                if below is not None and bulk != below:
+                    return pre + f"{who}: getall_class()={bulk}, the wrapped labels are {below}"
+                continue
+            if isinstance(bulk, list) and not r["dynamic"]:
+                if bulk != items:
+                    return pre + f"{who}: bulk accessor differs from the per-sample accessor: getall_class()={bulk} per-sample={items}"
+                if "bulk_again" in r and r["bulk_again"] != bulk:
+                    return pre + f"{who}: getall_class() gave {bulk}, after the per-sample reads {r['bulk_again']}"
+            sp = specs[j]
+            labs = [y for y in (items + (bulk if isinstance(bulk, list) else []))]
+            if any(not isinstance(y, int) for y in labs):
+                return pre + f"{who}: non-integer label in {labs}"
+            if not (sp["w"] == "class_groups" and case["C"] % sp["cpg"]) and isinstance(shape, list) and len(shape) == 1:
+                badl = [y for y in labs if not (0 <= y < shape[0] or (y == -1 and r["kind"] in UNLABELED_OK))]
+                if badl:
+                    return pre + f"{who}: label(s) {sorted(set(badl))} outside the announced range [0,{shape[0]})"
+            if "fresh" in r:
+                fr = r["fresh"]
+                if isinstance(fr, str):
+                    return pre + f"{who}: a fresh wrapper with the current settings cannot be built: {fr}"
+                if fr["items"] != items or (isinstance(bulk, list) and fr["bulk"] != bulk) or fr["shape"] != shape:
+                    return (pre + f"{who} shows per-sample {items}, bulk {bulk}, shape {shape}; a FRESH wrapper built from the "
+                            f"current settings shows per-sample {fr['items']}, bulk {fr['bulk']}, shape {fr['shape']}"
+                            + (" (a table given through uri= is read at construction: the labels must stay those of the file "
+                               "as it was then -- the mapping is a function of the constructor arguments and seed)"
+                               if any("the file behind" in x for x in done) else ""))
+            below = items
     return None
 
 
@@ -1684,6 +2217,20 @@ def features(case, obs):
             "same kind" if same else "other kind",
             " with another seed" if same and st["spec"].get("seed") != case.get("seed") else "",
             "beside" if st["on"] == -1 else "on top of the wrapper under test" if st["on"] == -2 else "stacked on a sibling")
+    if case.get("via"):
+        yield "table through uri= (%s)" % case["via"]
+    if case.get("first"):
+        yield "first access to the new wrapper: " + case["first"]
+    specs_ = _specs(case)
+    for st, rec in zip(case.get("ops", []), obs.get("ops", [])):
+        tgt = specs_[st.get("target", 0)]
+        where = "wrapper under test" if st.get("target", 0) == 0 else "layer below"
+        if st.get("set"):
+            yield "ops step: %s.%s set (%s), order %s" % (tgt["w"], st["set"][0], where, st["order"])
+        elif st.get("file") and "skipped" not in rec:
+            yield "ops step: uri= file of %s %s (%s), order %s" % (tgt["w"], st["file"], where, st["order"])
+        else:
+            yield "ops step: read only, order %s" % st["order"]
     if case.get("src"):
         changed = obs.get("src_wrapped") != obs.get("wrapped")
         yield "label source changes after construction: %s, wrapped labels change=%s" % (case["src"]["how"], changed)
